@@ -338,6 +338,14 @@ func init() {
 		"time.now":   func(fr *frame, a []value) value { return tuple{int64(1700000000), int32(0), int64(0)} },
 		"time.Sleep": func(fr *frame, a []value) value { fr.i.yieldPoint("sleep"); return nil },
 		"time.runtimeNano": func(fr *frame, a []value) value { return int64(0) },
+		"time.NewTicker":        func(fr *frame, a []value) value { return newTimerLike(fr) },
+		"time.NewTimer":         func(fr *frame, a []value) value { return newTimerLike(fr) },
+		"(*time.Ticker).Stop":   extNop,
+		"(*time.Ticker).Reset":  extNop,
+		"(*time.Timer).Stop":    func(fr *frame, a []value) value { return true },
+		"(*time.Timer).Reset":   func(fr *frame, a []value) value { return true },
+		"time.After":            func(fr *frame, a []value) value { return &vchan{cap: 1, elem: nil, epoch: fr.i.epoch} },
+		"time.AfterFunc":        func(fr *frame, a []value) value { return newTimerLike(fr) },
 		"github.com/henrylee2cn/goutil/coarsetime.FloorTimeNow":   extTimeNow,
 		"github.com/henrylee2cn/goutil/coarsetime.CeilingTimeNow": extTimeNow,
 
@@ -804,6 +812,17 @@ func extAtomicCAS(fr *frame, args []value) value {
 }
 
 // ---------------------------------------------------------------- time
+
+// newTimerLike builds a *time.Timer / *time.Ticker whose channel never fires
+// (timers never expire in the model; stub S-TIME).
+func newTimerLike(fr *frame) value {
+	pt := fr.fn.Signature.Results().At(0).Type().Underlying().(*types.Pointer)
+	st := zero(pt.Elem()).(structure)
+	chT := pt.Elem().Underlying().(*types.Struct).Field(0).Type().Underlying().(*types.Chan)
+	st[0] = &vchan{cap: 1, elem: chT.Elem(), epoch: fr.i.epoch}
+	var cell value = st
+	return &cell
+}
 
 func extTimeNow(fr *frame, args []value) value {
 	i := fr.i
